@@ -52,6 +52,8 @@ def start(vkind, n, M, V, seed):
     rnd = lambda *s: g.standard_normal(s) + (1j * g.standard_normal(s) if cplx else 0)  # noqa: E731
     if vkind == "rand":
         return rnd(n), n
+    if vkind == "cplxvec":  # a complex start vector, also on a real operator (the basis lives in the promoted, complex dtype)
+        return g.standard_normal(n) + 1j * g.standard_normal(n), n
     if vkind == "lowp":  # a start vector in a narrower dtype than the operator: the decomposition is computed in the promoted dtype
         return rnd(n).astype(np.complex64 if cplx else np.float32), n
     if vkind == "intvec":
@@ -317,8 +319,8 @@ def cases(tier, seed):
         for n in small + (big if fam != "int" else []):
             ms = list(range(1, n + 4)) if n <= 6 else sorted({1, 2, 5, n, n + 1, n + 5, 1000})
             for cplx in cplxs:
-                for vk in ("rand", "inv1", "inv2", "inv3", "batch", "batchmix", "default", "lowp", "intvec"):
-                    if vk in ("lowp", "intvec") and "@" in fam:
+                for vk in ("rand", "inv1", "inv2", "inv3", "batch", "batchmix", "default", "lowp", "intvec", "cplxvec"):
+                    if vk in ("lowp", "intvec", "cplxvec") and "@" in fam:
                         continue
                     if vk == "batchmix" and n < 3:
                         continue
